@@ -26,7 +26,9 @@ SHARDS = {"quick": 1, "thorough": 8}
 
 BINARY = ["contains", "covers", "crosses", "disjoint", "intersects", "touches", "within", "overlaps", "difference", "intersection",
           "symmetric_difference", "union", "__and__", "__or__", "__xor__", "__sub__"]
-KINDS = ["point", "line", "ring", "polygon", "polygon-hole", "multipoint", "multiline", "multipolygon", "collection", "empty-polygon", "empty-collection"]
+KINDS = ["point", "line", "ring", "polygon", "polygon-hole", "multipoint", "multiline", "multipolygon", "collection", "empty-polygon", "empty-collection",
+         # shapes GEOS calls invalid (what digitised or machine-made outlines often are): the CRS verdict comes first, whatever else is wrong with an operand
+         "bowtie", "multipolygon-overlapping", "hole-outside"]
 
 
 def crs_pool():
@@ -95,6 +97,9 @@ def shapes(rng: random.Random):
         "collection": sg.GeometryCollection([sg.Point(*pt()), sg.LineString([pt(), pt()]), poly(0, 0, 5)]),
         "empty-polygon": sg.Polygon(),
         "empty-collection": sg.GeometryCollection(),
+        "bowtie": sg.Polygon([(-10, -10), (10, 10), (10, -10), (-10, 10)]),
+        "multipolygon-overlapping": sg.MultiPolygon([poly(0, 0, 6), poly(3, 3, 6)]),
+        "hole-outside": sg.Polygon([(0, 0), (8, 0), (8, 8), (0, 8)], [[(20, 20), (22, 20), (21, 22)]]),
     }
     return out
 
@@ -429,7 +434,7 @@ def run(mon: Monitor, tier: str, seed: int, shard: int, nshards: int) -> None:
             continue
         shp = shapes(rng)
         for tags in streams(rng, names) + [p for p in pairs if rep == 0 or rng.random() < 0.15]:
-            kinds = [rng.choice(KINDS[:9]) for _ in tags]
+            kinds = [rng.choice(KINDS[:9] + KINDS[11:]) for _ in tags]
             if rng.random() < 0.3:
                 kinds = [kinds[0]] * len(tags)  # twins: byte-identical coordinates under different CRS tags (de-duplication by shape must not hide the tag)
             for op in NARY:
@@ -452,7 +457,7 @@ def run(mon: Monitor, tier: str, seed: int, shard: int, nshards: int) -> None:
     mon.floor("history.pair", 20)
     if full:
         mon.exhaustive = True
-        mon.notes["exhaustive_domain"] = "binary ops x 13^2 CRS tag pairs x 11^2 kind pairs"
+        mon.notes["exhaustive_domain"] = "binary ops x 17^2 CRS tag pairs x 14^2 kind pairs"
     for op in BINARY:
         mon.floor(f"Geometry.{op}", 100 // (1 if not full else 1))
     for pt, k in [("Geometry.split", 100), ("geom.intersects", 100), ("geom.multigeom", 50), ("geom.common_crs", 50), ("geom.unary_union", 50), ("geom.unary_intersection", 50),
